@@ -119,10 +119,7 @@ func ruleC03Bundle(c *Checker) {
 				pathParam = prm
 			}
 		}
-		isRemove := func(in ssa.Instruction) bool {
-			cl, ok := in.(*ssa.Call)
-			return ok && (isFunc(calleeObj(cl), "os", "RemoveAll") || isFunc(calleeObj(cl), "os", "Remove")) && canon(cl.Call.Args[0]) == ssa.Value(pathParam)
-		}
+		isRemove := func(in ssa.Instruction) bool { return p.removesPath(in, pathParam) }
 		var allExF []Edge
 		for i, e := range ex {
 			pos := p.Pos(e.Call.Pos())
@@ -244,10 +241,7 @@ func ruleC03Prune(c *Checker) {
 		}
 		for _, ci := range callsIn(fn) {
 			cl, ok := ci.(*ssa.Call)
-			if !ok || !isFunc(calleeObj(cl), "os", "RemoveAll") {
-				continue
-			}
-			if pathParam == nil || canon(cl.Call.Args[0]) != ssa.Value(pathParam) {
+			if !ok || pathParam == nil || !p.removesPath(cl, pathParam) {
 				continue
 			}
 			okp := guarded(cl.Block(), domT) || guarded(cl.Block(), notDir)
@@ -494,18 +488,49 @@ func ruleC03Off(c *Checker) {
 		return ok && fieldOf(fa) != nil && fieldOf(fa).Name() == "applyTerraformIgnore"
 	})
 	n := 0
-	for _, ci := range callsIn(pack) {
-		cl, ok := ci.(*ssa.Call)
-		if !ok {
-			continue
-		}
-		g := cl.Common().StaticCallee()
-		if g == nil || !p.InModule(g) || !returnsRuleset(g) {
-			continue
-		}
-		n++
-		c.check(guarded(cl.Block(), applyT), R, p.FuncName(pack), "rules loaded only when enabled", p.Pos(cl.Pos()), "the rule file is parsed only on the applyTerraformIgnore=true edge", "ignore rules are loaded although ignore processing is switched off")
+	applyEdges := func(f *ssa.Function) []Edge {
+		t, _ := condEdges(f, func(v ssa.Value) bool {
+			u, ok := v.(*ssa.UnOp)
+			if !ok || u.Op != token.MUL {
+				return false
+			}
+			fa, ok := u.X.(*ssa.FieldAddr)
+			return ok && fieldOf(fa) != nil && fieldOf(fa).Name() == "applyTerraformIgnore"
+		})
+		return t
 	}
+	// every call that produces a Ruleset, anywhere reachable from Pack outside the rule package itself,
+	// must be guarded by the option on every route from Pack
+	for _, member := range sortedFuncs(p.reach(pack)) {
+		if member.Package() != nil && strings.HasSuffix(member.Package().Pkg.Path(), "/ignorefiles") {
+			continue
+		}
+		for _, ci := range callsIn(member) {
+			cl, ok := ci.(*ssa.Call)
+			if !ok {
+				continue
+			}
+			g := cl.Common().StaticCallee()
+			if g == nil || !p.InModule(g) || !returnsRuleset(g) {
+				continue
+			}
+			if g.Package() == nil || !strings.HasSuffix(g.Package().Pkg.Path(), "/ignorefiles") {
+				continue // a wrapper inside the packer: its own loader call is the obligation
+			}
+			n++
+			okr, why := p.guardedOnEveryRoute(cl, pack, func(in ssa.Instruction) bool {
+				return guarded(in.Block(), applyEdges(in.Parent()))
+			}, 4)
+			// guardedOnEveryRoute evaluates pred only in `top`; evaluate in intermediate functions too
+			if !okr {
+				okr = p.guardedSomewhereOnEveryRoute(cl, pack, func(in ssa.Instruction) bool {
+					return guarded(in.Block(), applyEdges(in.Parent()))
+				}, 4)
+			}
+			c.check(okr, R, p.FuncName(pack), "rules loaded only when enabled", p.Pos(cl.Pos()), "the rule file is parsed only on the applyTerraformIgnore=true edge (on every route from Pack)", "ignore rules are loaded although ignore processing is switched off: "+why)
+		}
+	}
+	_ = applyT
 	c.check(n > 0, R, p.FuncName(pack), "rule loading present", p.Pos(pack.Pos()), fmt.Sprintf("%d rule-loading call(s)", n), "Pack never loads ignore rules (ApplyTerraformIgnore has no effect)")
 	// nil ruleset
 	var recv *ssa.Parameter
@@ -593,31 +618,36 @@ func ruleC03Parse(c *Checker) {
 	}
 	name := p.FuncName(rd)
 	byteCmp := func(ch byte, first bool) (t, f []Edge) {
-		return condEdges(rd, func(v ssa.Value) bool {
-			bo, ok := v.(*ssa.BinOp)
-			if !ok || bo.Op != token.EQL {
-				return false
-			}
-			k, ok := constInt(bo.Y)
-			if !ok || k != int64(ch) {
-				return false
-			}
-			ix, ok := bo.X.(*ssa.Index)
-			if !ok {
-				// os.PathSeparator comparisons convert the byte
-				if cv, ok2 := bo.X.(*ssa.Convert); ok2 {
-					ix, ok = cv.X.(*ssa.Index)
-				}
-				if !ok {
+		match := func(op token.Token) func(v ssa.Value) bool {
+			return func(v ssa.Value) bool {
+				bo, ok := v.(*ssa.BinOp)
+				if !ok || bo.Op != op {
 					return false
 				}
+				k, ok := constInt(bo.Y)
+				if !ok || k != int64(ch) {
+					return false
+				}
+				ix, ok := bo.X.(*ssa.Index)
+				if !ok {
+					// os.PathSeparator comparisons convert the byte
+					if cv, ok2 := bo.X.(*ssa.Convert); ok2 {
+						ix, ok = cv.X.(*ssa.Index)
+					}
+					if !ok {
+						return false
+					}
+				}
+				i0, isC := constInt(ix.Index)
+				if first {
+					return isC && i0 == 0
+				}
+				return !isC
 			}
-			i0, isC := constInt(ix.Index)
-			if first {
-				return isC && i0 == 0
-			}
-			return !isC
-		})
+		}
+		t, f = condEdges(rd, match(token.EQL))
+		f2, t2 := condEdges(rd, match(token.NEQ)) // x != c: its true edge is the "differs" edge
+		return append(t, t2...), append(f, f2...)
 	}
 	// every line that is neither blank nor a comment appends a rule: each way back to the
 	// scan loop's head either passes the append of the rule or lies on an enumerated skip edge
@@ -688,18 +718,23 @@ func ruleC03Parse(c *Checker) {
 	// negationsAfter flagged on the '!' edge
 	naVar := p.FieldVar("ignorefiles", "rule", "negationsAfter")
 	nNA := 0
-	eachInstr(rd, func(in ssa.Instruction) {
-		st, ok := in.(*ssa.Store)
-		if !ok {
-			return
-		}
-		fa, ok := st.Addr.(*ssa.FieldAddr)
-		if !ok || fieldOf(fa) != naVar {
-			return
-		}
-		nNA++
-		c.check(guarded(st.Block(), bangT), R, name, "negationsAfter set on '!'", p.Pos(st.Pos()), "earlier rules learn that a negation follows", "negationsAfter is set outside the negation branch")
-	})
+	for member := range p.family(rd) {
+		eachInstr(member, func(in ssa.Instruction) {
+			st, ok := in.(*ssa.Store)
+			if !ok {
+				return
+			}
+			fa, ok := st.Addr.(*ssa.FieldAddr)
+			if !ok || fieldOf(fa) != naVar {
+				return
+			}
+			nNA++
+			okg := p.guardedSomewhereOnEveryRoute(st, rd, func(x ssa.Instruction) bool {
+				return x.Parent() == rd && guarded(x.Block(), bangT)
+			}, 3)
+			c.check(okg, R, name, "negationsAfter set on '!'", p.Pos(st.Pos()), "earlier rules learn that a negation follows", "negationsAfter is set outside the negation branch")
+		})
+	}
 	c.check(nNA > 0, R, name, "earlier rules flagged", p.Pos(rd.Pos()), "a negation flags the rules before it", "a negation no longer flags the rules before it (directories would be pruned although something below is re-included)")
 	// '#' → no append on that edge
 	hashT, _ := byteCmp('#', true)
@@ -749,4 +784,35 @@ func ruleC03Parse(c *Checker) {
 		}
 	}
 	c.check(stripped, R, name, "leading separator anchors", p.Pos(rd.Pos()), "the leading separator is stripped and no **/ is added", "a leading '/' no longer anchors the pattern to the root")
+}
+
+// removesPath: the instruction removes the entry at path — os.RemoveAll /
+// os.Remove of it, or a call to a private helper that always does so with the
+// corresponding argument.
+func (p *Prog) removesPath(in ssa.Instruction, path ssa.Value) bool {
+	cl, ok := in.(*ssa.Call)
+	if !ok || path == nil {
+		return false
+	}
+	o := calleeObj(cl)
+	if isFunc(o, "os", "RemoveAll") || isFunc(o, "os", "Remove") {
+		return canon(cl.Call.Args[0]) == canon(path)
+	}
+	g := cl.Common().StaticCallee()
+	if g == nil || !p.InModule(g) || g.Parent() != nil || (g.Object() != nil && g.Object().Exported()) {
+		return false
+	}
+	for i, a := range cl.Call.Args {
+		if canon(a) != canon(path) || i >= len(g.Params) {
+			continue
+		}
+		prm := g.Params[i]
+		if p.helperAlways(g, func(x ssa.Instruction) bool {
+			c2, ok := x.(*ssa.Call)
+			return ok && (isFunc(calleeObj(c2), "os", "RemoveAll") || isFunc(calleeObj(c2), "os", "Remove")) && canon(c2.Call.Args[0]) == ssa.Value(prm)
+		}, 1) {
+			return true
+		}
+	}
+	return false
 }
